@@ -16,8 +16,13 @@ import (
 // C08 — after any edit / file-event history, diagnostics equal those of a fresh start.
 
 type C08Action struct {
-	Kind string `json:"kind"` // create | change | delete | open | edit | save | close
+	Kind string `json:"kind"` // create | change | delete | open | edit | save | close | batch
 	File int    `json:"file"`
+	// batch: one didChangeWatchedFiles notification with a Changed event for each of Files; Texts[k] is
+	// the new disk content of Files[k], or c08Same when the file is reported changed with the same
+	// content (a touch, or a save that changes nothing)
+	Files []int    `json:"files,omitempty"`
+	Texts []string `json:"texts,omitempty"`
 	Text string `json:"text,omitempty"`
 	// Incremental: for edit, send the new text as one incremental replacement of the whole old text
 	Incremental bool `json:"incremental,omitempty"`
@@ -30,6 +35,8 @@ type C08Case struct {
 }
 
 func init() { register("C08", checkC08) }
+
+const c08Same = "\x00same"
 
 var c08Flags = []int{1, 2, 3, 4, 6}
 
@@ -106,6 +113,27 @@ func genC08(t *rapid.T) C08Case {
 			kinds = []string{"edit", "edit", "edit", "save", "save", "close"}
 		default:
 			kinds = []string{"open", "open", "change", "delete"}
+		}
+		var closed []int
+		for j := 0; j < nf; j++ {
+			if exists[j] && !open[j] {
+				closed = append(closed, j)
+			}
+		}
+		if len(closed) >= 2 && rapid.IntRange(0, 5).Draw(t, "batch") == 0 {
+			a := C08Action{Kind: "batch", File: closed[0]}
+			for _, j := range closed {
+				switch rapid.IntRange(0, 2).Draw(t, "batchKind") {
+				case 0:
+					a.Files, a.Texts = append(a.Files, j), append(a.Texts, c08Content(t, j, nf))
+				case 1:
+					a.Files, a.Texts = append(a.Files, j), append(a.Texts, c08Same)
+				}
+			}
+			if len(a.Files) >= 2 {
+				c.Actions = append(c.Actions, a)
+				continue
+			}
 		}
 		k := rapid.SampledFrom(kinds).Draw(t, "action")
 		a := C08Action{Kind: k, File: i}
@@ -231,6 +259,17 @@ func checkC08(c C08Case, env *Env) *Violation {
 			exists[i] = false
 			req.Steps = append(req.Steps, proto.Step{Op: "remove", Path: name}, harness.Watched([2]interface{}{name, 3}))
 			hasDeleteOrCreate = true
+		case "batch":
+			var evs [][2]interface{}
+			for k, j := range a.Files {
+				if a.Texts[k] != c08Same {
+					disk[j] = a.Texts[k]
+				}
+				// a touch rewrites the same bytes
+				req.Steps = append(req.Steps, proto.Step{Op: "write", Path: c08Name(j), Data: []byte(disk[j])})
+				evs = append(evs, [2]interface{}{c08Name(j), 2})
+			}
+			req.Steps = append(req.Steps, harness.Watched(evs...))
 		case "open":
 			open[i], buf[i], version[i] = true, disk[i], 1
 			dirtyFlag[i] = false
@@ -361,6 +400,14 @@ func c08Show(c *C08Case) string {
 		}
 	}
 	for i, a := range c.Actions {
+		if a.Kind == "batch" {
+			fmt.Fprintf(&b, "%d. batch of Changed events:", i)
+			for k, j := range a.Files {
+				fmt.Fprintf(&b, " %s=%q", c08Name(j), a.Texts[k])
+			}
+			b.WriteString("\n")
+			continue
+		}
 		fmt.Fprintf(&b, "%d. %s %s incremental=%v %q\n", i, a.Kind, c08Name(a.File), a.Incremental, a.Text)
 	}
 	return b.String()
